@@ -748,6 +748,46 @@ def _execute(plan, out, scratch):
                                           want2),
                                   {"cls": None, "site": "validator.py:main"})
                     probe("validator-stdin-run")
+                # standard input named twice ('-' is argparse's spelling of
+                # it): the second mention finds the stream used up -- the
+                # command still ends with a status, not a traceback
+                if not internal(sd):
+                    w.begin_op("validator-stdin-twice")
+                    err3 = io.StringIO()
+                    fin = io.StringIO(stext)
+                    fin.isatty = lambda: False
+                    old3 = sys.stdin, sys.stdout, sys.stderr
+                    sys.stdin, sys.stdout, sys.stderr = \
+                        fin, io.StringIO(), err3
+                    try:
+                        so3 = ops.guarded(lambda: {
+                            "ok": True,
+                            "status": ZConfig.validator.main(
+                                ["-s", spath, "-", "-"])})
+                    except SystemExit as e:
+                        so3 = {"ok": False, "cls": "SystemExit",
+                               "cfgerr": False, "site": "validator.py:main",
+                               "raised_in": None,
+                               "msg": "SystemExit(%r)" % (e.code,)}
+                    finally:
+                        sys.stdin, sys.stdout, sys.stderr = old3
+                    w.end_op("done")
+                    del w.warnings[:]
+                    out["evaluations"] += 1
+                    probe("validator-stdin-twice-run")
+                    if not so3["ok"]:
+                        violation("validator-raised",
+                                  "validator.main given standard input twice "
+                                  "('- -') raised %s" % ops.brief(so3),
+                                  {"cls": so3["cls"],
+                                   "site": so3.get("site")})
+                    elif so3["status"] not in (0, 1) or (
+                            so3["status"] == 0 and not sd["ok"]):
+                        violation("validator-status",
+                                  "validator.main given standard input twice "
+                                  "returned %r; a direct load of that text "
+                                  "%s" % (so3["status"], ops.brief(sd)),
+                                  {"cls": None, "site": "validator.py:main"})
                 if expect_err:
                     probe("validator-reported-invalid-file")
                     out["digests"].append(hashlib.sha256(json.dumps(
